@@ -549,6 +549,20 @@ def _name_counterexample(sx: SymX, info, reg):
         return None
 
 
+def _name_agrees_on_samples(sx: SymX, info, reg) -> int:
+    """Number of sample (source root, path) pairs on all of which the registered name is the specified one (0: not all of them, or
+    the name cannot be evaluated on one)."""
+    if reg.path is None or not info.parse.cls or not info.ctor_heap:
+        return 0
+    init = info.parse.cls.methods.get("__init__")
+    if init is None or len(init.param_names) < 3:
+        return 0
+    try:
+        return c04_eval.name_agrees_on_all_samples(reg.element, reg.path, f"{info.parse.cls.name}.{init.param_names[2]}", sx)
+    except Exception:  # noqa: BLE001
+        return 0
+
+
 def rule_r3(repo: Repo, res: Result) -> None:
     info = scan.analyse(repo)
     sx = info.sx
@@ -622,6 +636,12 @@ def rule_r3(repo: Repo, res: Result) -> None:
             if cex is not None:
                 readable = False
                 res.add("C04.R3", key + " [naming shape]", False, f"for the source root {cex[0]!r} the path {cex[1]!r} is registered as {cex[2]!r} instead of {cex[3]!r}", wh, kind="structural")
+            elif (d is None or not _path_vocabulary(d, (rel[1], root, strip_abs(rel[1])), (root,))) and (n_ok := _name_agrees_on_samples(sx, info, reg)):
+                # no normal form, but a small pure computation: tabulated on sample paths (the root itself, nested packages, the root's
+                # name and the suffix text occurring again inside the path)
+                readable = False
+                res.add("C04.R3", key + " [naming shape]", True, f"the name evaluated on {n_ok} sample paths is the root directory's name + '.' + the relative path without the file suffix each time (the spelling has no normal form here)", wh, kind="decision-table")
+                res.add("C04.R3", key + " [root maps to its own name]", True, "on the sample where the path is the source root, the name is the root directory's name", wh, kind="decision-table")
             elif d is None:
                 readable = False
                 res.undecide("C04.R3", key + " [naming shape]", f"cannot read `{show(v, 160)}` as a dotted name", wh)
